@@ -12,6 +12,7 @@ import glob
 import json
 import os
 import re
+import resource
 import shutil
 import tempfile
 import time
@@ -101,6 +102,11 @@ class Job:
     def key(self):
         return "%s|%s|%s" % (os.path.basename(self.prog), self.variant, self.sched)
 
+
+# stratified schedules of the quick tier (harness/C01/gch.c, schedule `uNcK`): a collection at EVERY safepoint reached while a
+# function of the program under test runs (the first K of them; afterwards one in 4) and at one in N of the safepoints in
+# boot.janet's own code
+QS_SCEN, QS_GEN_BEH, QS_GEN_GRAPH = "u8c600", "u16c400", "u32c300"
 
 KEEPALIVE = []       # path of the build directory's .lastuse stamp (vlib/build.py purges build directories of OTHER tree hashes
 
@@ -314,8 +320,13 @@ def roots_stage(ctx, quick, driver, gen_info, broken, only=None):
     return tot
 
 
+CPU0 = [0.0]
+
+
 def run(ctx, only_replay=None):
     quick = ctx.tier == "quick"
+    ru = resource.getrusage(resource.RUSAGE_CHILDREN)
+    CPU0[0] = ru.ru_utime + ru.ru_stime
     broken = []
     try:
         ctx.build.boot()
@@ -379,22 +390,26 @@ def _run(ctx, quick, broken, exes, driver, tmp, gen_info, only_replay):
         g = "scenario:" + os.path.basename(p)
         groups[g] = dict(prog=p, kind="scenario", need=need, opt=opt, observes=observes)
         beh = scheds or ["never", "always", "p16"]
+        # quick tier: the every-safepoint schedule is replaced by the stratified one (QS_SCEN: every safepoint in the scenario's
+        # own code up to the cap, then one in 4; one in 8 of the safepoints inside boot.janet's compiler / macro expander,
+        # which are the same for every program); the thorough tier keeps `always`
+        qbeh = [(QS_SCEN if (quick and s == "always") else s) for s in beh]
         weaky = "weak" in os.path.basename(p)      # every collection of a weak-container scenario goes through the model's weak pass
         ringy = "wrapped" in os.path.basename(p)    # ... and every ring state of the wrapped-channel scenario through the regenerated loops
         symy = "symcache" in os.path.basename(p)   # ... and every collection of a symbol-cache scenario through the model's cache pass
         jobs.append((g, Job(p, "plain", "never", graph=True, crit=True, dump=(1, 0, 12 if (weaky or ringy) else (8 if symy else 1)), stack_kb=stack)))
-        for s in beh[1:]:
+        for s in qbeh[1:]:
             jobs.append((g, Job(p, "plain", s, seed=rng.next() % 10**9, graph=True,
                                 dump=(rng.range(2, 6), rng.below(6), 12) if weaky else ((rng.range(2, 9), rng.below(9), 3) if symy else (rng.range(2, 40), rng.below(40), 1)),
                                 stack_kb=stack)))
         if not observes:
             for v in ("asan", "asan_debugstack"):
-                for s in beh:
-                    if quick and v == "asan" and s == "always":
+                for s in qbeh:
+                    if quick and v == "asan" and s == QS_SCEN:
                         continue   # every-safepoint runs: plain (graph level) and asan_debugstack
                     jobs.append((g, Job(p, v, s, seed=rng.next() % 10**9, stack_kb=stack * 3)))
     # ---- generated programs
-    n_small, n_large = (36, 24) if quick else (600, 400)
+    n_small, n_large = (30, 18) if quick else (600, 400)
     light = bool(os.environ.get("C01_LIGHT"))   # development aid (mutation runs): catalogue + a few programs only
     if light:
         n_small, n_large = 12, 8
@@ -419,12 +434,18 @@ def _run(ctx, quick, broken, exes, driver, tmp, gen_info, only_replay):
             f.write(src)
         g = "gen:%04d" % i
         groups[g] = dict(prog=p, kind="gen", src=src, observes=False, need=[], opt=[])
-        if small:
-            # every-safepoint runs: asan_debugstack (ASan + stack relocation at every frame push) and, in the thorough tier, plain asan too
-            plan = [("asan", "never"), ("asan", "p3" if quick else "always"), ("asan_debugstack", "always"), ("asan_debugstack", "p4")]
-            gs = "p3" if quick else "p2"
+        if small and quick:
+            # CPU budget of the quick tier (measured by the harness, see cpu_seconds in the evidence): about three quarters of a
+            # small program's ~8000 safepoints lie in boot.janet's compiler; the stratified schedules collect at every safepoint
+            # of the program's own code up to a cap and sample the rest
+            plan = [("asan", "never"), ("asan_debugstack", QS_GEN_BEH)] + ([("asan", "p4")] if i % 2 == 0 else [])
+            gs = QS_GEN_GRAPH
+        elif small:
+            # every-safepoint runs: asan_debugstack (ASan + stack relocation at every frame push) and plain asan
+            plan = [("asan", "never"), ("asan", "always"), ("asan_debugstack", "always"), ("asan_debugstack", "p4"), ("asan_debugstack", QS_GEN_BEH)]
+            gs = "p2"
         else:
-            plan = [("asan", "never"), ("asan", "p16"), ("asan_debugstack", "p16"), ("asan_debugstack", "p256")]
+            plan = [("asan", "never"), ("asan", "p16"), ("asan_debugstack", "p16")] + ([] if quick else [("asan_debugstack", "p256")])
             gs = "p64"
         for v, s in plan:
             jobs.append((g, Job(p, v, s, seed=r.next() % 10**9)))
@@ -450,7 +471,7 @@ def _run(ctx, quick, broken, exes, driver, tmp, gen_info, only_replay):
     ctx.say("%d executions planned (%d scenarios, %d generated programs, %d suites)" % (len(jobs), len(scen), n_small + n_large, len(suites)))
     # ---------------------------------------------------------------- run
     # long jobs first
-    order = sorted(range(len(jobs)), key=lambda i: (0 if jobs[i][1].sched == "always" else 1, i))
+    order = sorted(range(len(jobs)), key=lambda i: (0 if (jobs[i][1].sched == "always" or jobs[i][1].sched.startswith("u")) else 1, i))
     results = {}
     with cf.ThreadPoolExecutor(int(os.environ.get("VERIF_JOBS", "16"))) as ex:
         futs = {ex.submit(run_job, exes, jobs[i][1], tmp): i for i in order}
@@ -464,7 +485,7 @@ def _run(ctx, quick, broken, exes, driver, tmp, gen_info, only_replay):
         by[k] = by.get(k, 0) + getattr(j, "secs", 0)
     ctx.say("job seconds by class: " + ", ".join("%s %.0f" % kv for kv in sorted(by.items(), key=lambda kv: -kv[1])[:12]))
     # ---------------------------------------------------------------- evaluate
-    tot = dict(pending_streams=0, collections=0, checked=0, nodes=0, edges=0, freed=0, forced=0, safepoints=0, dumps=0, opaque_collections=0,
+    tot = dict(pending_streams=0, collections=0, checked=0, nodes=0, edges=0, freed=0, forced=0, safepoints=0, user_safepoints=0, dumps=0, opaque_collections=0,
                sym_probes=0, sym_wrapped=0, sym_through_tomb=0, sym_freed=0, sym_last_freed=0, sym_last_freed_chain=0, sym_skipped=0,
                worker_threads=0, worker_safepoints=0, worker_forced=0, worker_collections=0, worker_checked=0)
     label_edges, crit_seen = {}, {}
@@ -485,6 +506,7 @@ def _run(ctx, quick, broken, exes, driver, tmp, gen_info, only_replay):
             n_exec += 1
             sched_hist[job.variant + "/" + re.sub(r"\d+", "N", job.sched)] = sched_hist.get(job.variant + "/" + re.sub(r"\d+", "N", job.sched), 0) + 1
             findings, summary, labels, crit = parse_report(r["rep"])
+            job.cpu = summary.get("cpu_ms", 0) / 1000.0
             for k in tot:
                 tot[k] += summary.get(k, 0)
             for k, v in labels.items():
@@ -578,6 +600,19 @@ def _run(ctx, quick, broken, exes, driver, tmp, gen_info, only_replay):
                         shutil.copy(path, keep)
                         broken.append("correspondence model/impl on heap dump of %s (%s %s): %s" % (g, job.variant, job.sched, l[:300]))
                         ctx.broken.append(broken[-1])
+    # CPU cost (measured by the harness itself with getrusage, so independent of the load of the box)
+    cpu_by = {}
+    for g, j in jobs:
+        k = "%s/%s/%s%s" % (g.split(":")[0], j.variant, re.sub(r"\d+", "N", j.sched), "+graph" if j.graph else "")
+        cpu_by[k] = cpu_by.get(k, 0) + getattr(j, "cpu", 0)
+    cpu_exec = sum(cpu_by.values())
+    ru = resource.getrusage(resource.RUSAGE_CHILDREN)
+    cpu_all = ru.ru_utime + ru.ru_stime - CPU0[0]
+    ctx.say("CPU seconds: executions %.0f (%s); all child processes of this check incl. lake, drivers, compilers %.0f" % (
+        cpu_exec, ", ".join("%s %.0f" % kv for kv in sorted(cpu_by.items(), key=lambda kv: -kv[1])[:10]), cpu_all))
+    if os.environ.get("C01_PROFILE"):
+        for c, k in sorted(((getattr(j, "cpu", 0), j.key()) for _, j in jobs), reverse=True)[:60]:
+            ctx.say("  cpu %6.1fs %s" % (c, k))
     new_viol = ctx.nviol - nviol_before
     if broken and not new_viol:
         ctx.violation("broken:" + broken[0][:80], {"kind": "broken-obligation", "broken": broken[:20]}, found=False,
@@ -590,7 +625,7 @@ def _run(ctx, quick, broken, exes, driver, tmp, gen_info, only_replay):
                 "marked==reachable + freed==unmarked comparison (collections_checked)",
         "samples": [j.key() for _, j in jobs[:3]] + [j.key() for _, j in jobs[-3:]],
         "collections_total": tot["collections"], "collections_graph_checked": tot["checked"], "graph_nodes_visited": tot["nodes"],
-        "graph_edges_visited": tot["edges"], "blocks_freed_checked": tot["freed"], "safepoints": tot["safepoints"], "forced_collections": tot["forced"],
+        "graph_edges_visited": tot["edges"], "blocks_freed_checked": tot["freed"], "safepoints": tot["safepoints"], "safepoints_in_program_code_under_stratified_schedules": tot["user_safepoints"], "forced_collections": tot["forced"],
         "pending_stream_root_checks": tot["pending_streams"],
         "worker_thread_collections": {"threads": tot["worker_threads"], "safepoints": tot["worker_safepoints"], "forced": tot["worker_forced"],
                                       "collections": tot["worker_collections"], "graph_checked": tot["worker_checked"]},
@@ -601,6 +636,7 @@ def _run(ctx, quick, broken, exes, driver, tmp, gen_info, only_replay):
                                 "engineered_name_classes": {k: len(v) for k, v in sorted(sympool.items())}},
         "collections_with_unknown_abstract_gcmark": tot["opaque_collections"],
         "edge_labels_seen": dict(sorted(label_edges.items())), "edge_labels_exclusive_max": dict(sorted(crit_seen.items())),
+        "cpu_seconds": {"executions": round(cpu_exec, 1), "all_children": round(cpu_all, 1), "by_class": {k: round(v, 1) for k, v in sorted(cpu_by.items())}},
         "schedule_variant_histogram": sched_hist, "generated_statement_kinds": dict(sorted(kinds.items())),
         "differences_not_reproduced_on_rerun": flaky,
         "model_dumps_checked": model_checked, "model_dump_diffs": model_diffs, "model_stats": model_stats,
